@@ -284,6 +284,10 @@ def chunk_worker(args):
         shutil.rmtree(workdir, ignore_errors=True)
 
 
+# what every variant of a process set must agree on (the derivative evaluators are used between the add_* calls too)
+VARIANT_KEYS = ["ode", "jac", "grad", "djac"]
+
+
 def variants_worker(args):
     """C12: one abstract process set, several routes / orders / declaration forms; every variant must
     give the ODE (and numeric ode / jacobian) the specification derives for the process set."""
@@ -294,7 +298,7 @@ def variants_worker(args):
         for i in ids:
             rng = random.Random((seed << 20) + i)
             defn = gen.random_defn(rng, **opts.get("gen", {}))
-            jobs.append(defn.to_json(i, want=["jac"]))
+            jobs.append(defn.to_json(i, want=["jac", "grad", "djac"]))
             items.append((i, defn))
         outs, tres = run_tlc_oracle(jobs, workdir, "v%d_%d" % (seed, ids[0]))
         results = []
@@ -316,12 +320,12 @@ def variants_worker(args):
                 r["variants"].append(desc)
                 try:
                     m, events, odes = build.build(vd, rng=rng, style=rng.randrange(6), sform=sform, pform=pform,
-                                                  routes=routes, hows=hows, on_step=warmup(vd, ["ode", "jac"], rng))
+                                                  routes=routes, hows=hows, on_step=warmup(vd, VARIANT_KEYS, rng))
                 except Exception as ex:
                     r["mism"].append({"key": "build", "kind": "raised", "variant": desc,
                                       "detail": "".join(traceback.format_exception_only(type(ex), ex))[:300]})
                     continue
-                mm = compare_model(vd, m, out, events, ["ode", "jac"], rng, numeric=True, npoints=2, reactant=False)
+                mm = compare_model(vd, m, out, events, VARIANT_KEYS, rng, numeric=True, npoints=2, reactant=False)
                 # rate vector up to the event permutation, when every process stayed an event
                 if not mm and all(rt != "ODE" for rt, p in zip(routes, procs) if p["kind"] == "event") \
                         and len(defn.events()) > 0:
